@@ -6,12 +6,15 @@
 (* operators judge (M) the implementation-shaped model WalkGen.tla and (V)    *)
 (* recorded executions of the real pfst in WalkAccept.tla.                    *)
 (*                                                                            *)
-(* Snapshot T : Seq([s : serial of the FST object, d : depth, e : eligible]) *)
+(* Snapshot T : Seq([s : serial of the FST object, d : depth, e : eligible,   *)
+(*                    v : visible])                                           *)
 (*   the walked node W and its live descendants in *source* pre-order,        *)
-(*   T[1] = W with d = 0; e = the node passes the `all` filter of the walk.   *)
+(*   T[1] = W with d = 0; e = the node passes the `all` filter of the walk;   *)
+(*   v = the node belongs to what a scope=True walk of W shows (the scope of  *)
+(*   W plus the parts of nested scopes that are evaluated in it: decorators,  *)
+(*   defaults, annotations, bases, first iterators, walrus targets).          *)
 (* Event  [i : index into a snapshot, lv : leaving?]                           *)
-(* Settings cfg : [on : "enter"|"leave"|"both", back, recurse, self, scope,   *)
-(*                 rootleave]                                                 *)
+(* Settings cfg : [on : "enter"|"leave"|"both", back, recurse, self, scope]   *)
 EXTENDS Integers, Sequences, FiniteSets
 
 Serials(T) == {T[i].s : i \in 1..Len(T)}
@@ -31,15 +34,14 @@ Rev(s) == [k \in 1..Len(s) |-> s[Len(s) + 1 - k]]
 
 (* The order in which an undisturbed walk of T yields: parents on entry       *)
 (* and/or on leaving, children in source order (reversed with back).          *)
-(* RootLeaveUnfiltered (named deviation, what the code does): the last yield  *)
-(* of the walked node itself on leaving is not subject to the `all` filter    *)
-(* (cfg.rootleave; search() filters it again by its pattern).                 *)
+(* The walked node itself is subject to the `all` filter like any other node, *)
+(* on entry and on leaving.                                                   *)
 RECURSIVE Ev(_, _, _), EvList(_, _, _)
 Ev(T, i, cfg) ==
   LET ks == IF cfg.back THEN Rev(KidsSeq(T, i)) ELSE KidsSeq(T, i) IN
   (IF T[i].e /\ cfg.on # "leave" THEN <<[i |-> i, lv |-> FALSE]>> ELSE <<>>)
     \o EvList(T, ks, cfg)
-    \o (IF (T[i].e \/ (i = 1 /\ cfg.rootleave)) /\ cfg.on # "enter" THEN <<[i |-> i, lv |-> TRUE]>> ELSE <<>>)
+    \o (IF T[i].e /\ cfg.on # "enter" THEN <<[i |-> i, lv |-> TRUE]>> ELSE <<>>)
 EvList(T, ks, cfg) == IF ks = <<>> THEN <<>> ELSE Ev(T, Head(ks), cfg) \o EvList(T, Tail(ks), cfg)
 
 Events(T, cfg) ==
@@ -83,7 +85,7 @@ Optional(T, i, stale) == \E a \in Anc(T, i) \cup {i} : T[a].s \in stale
 (* first candidate that is not optional, or an optional one before it; the   *)
 (* walk may only end if no mandatory candidate is left.                      *)
 AllE(T) == [i \in 1..Len(T) |-> [T[i] EXCEPT !.e = TRUE]]
-Structural(T, cfg) == IF T = <<>> THEN <<>> ELSE Ev(AllE(T), 1, [cfg EXCEPT !.on = "both", !.rootleave = TRUE])
+Structural(T, cfg) == IF T = <<>> THEN <<>> ELSE Ev(AllE(T), 1, [cfg EXCEPT !.on = "both"])
 
 Follows(T0, ev, T1, cfg, entered, opened) ==
   LET B0 == Structural(T0, cfg)
@@ -94,7 +96,7 @@ Follows(T0, ev, T1, cfg, entered, opened) ==
       nearest(j) == CHOOSE a \in oldAnc(j) : \A b \in oldAnc(j) : b <= a
       pending(e) ==
         LET s == T1[e.i].s  i0 == old(e.i) IN
-        /\ IF e.lv /\ cfg.on = "both" THEN (s \in entered \/ e.i = 1) ELSE s \notin entered
+        /\ IF e.lv /\ cfg.on = "both" THEN s \in entered ELSE s \notin entered
         /\ Reach(T1, e.i, cfg, opened)
         /\ IF i0 # 0 THEN posB(i0, e.lv) > p0
            ELSE oldAnc(e.i) # {} /\ posB(old(nearest(e.i)), FALSE) > p0
@@ -110,10 +112,13 @@ AfterDead(T0, ev, T1, cfg, entered, opened, stale) ==
 
 (* ---- "after replacing the current node its new children are walked next"  *)
 (* ---- and send(True): the first event below the (new) current node ------- *)
-FirstBelow(T1, s, cfg, opened) ==
+(* With scope=True (and no send(True), which walks everything) the children   *)
+(* that are walked are those visible in the scope.                            *)
+FirstBelow(T1, s, cfg, opened, inScope) ==
   LET i  == IdxOf(T1, s)
       E  == Ev(T1, i, cfg)
-      in == SelectSeq(E, LAMBDA e : e.i \in Desc(T1, i) /\ ~e.lv /\ Reach(T1, e.i, cfg, opened))
+      in == SelectSeq(E, LAMBDA e : /\ e.i \in Desc(T1, i) /\ ~e.lv /\ Reach(T1, e.i, cfg, opened)
+                                    /\ (inScope => T1[e.i].v))
   IN IF i = 0 \/ in = <<>> THEN {} ELSE {[s |-> T1[in[1].i].s, lv |-> FALSE]}
 
 (* ---- send(False): nothing below a closed node is yielded ---------------- *)
